@@ -73,6 +73,11 @@ func genC08(t *rapid.T) C08Case {
 		}
 		c.Sources = append(c.Sources, src)
 	}
+	// at least one source with a directive and one without, so that a leak could show
+	if c.Sources[0].Prefix == "" {
+		c.Sources[0].Prefix = directive(rapid.IntRange(0, 15).Draw(t, "dirmask0"), rapid.IntRange(0, 3).Draw(t, "dirvar0"))
+	}
+	c.Sources[len(c.Sources)-1].Prefix = ""
 	na := rapid.IntRange(2, 12).Draw(t, "nactions")
 	for i := 0; i < na; i++ {
 		c.Actions = append(c.Actions, C08Action{Kind: pickW(t, "action", 6, 2, 2, 1, 1), S: rapid.IntRange(0, ns-1).Draw(t, "src"), Mut: rapid.IntRange(0, 6).Draw(t, "mut")})
